@@ -497,8 +497,12 @@ def run(ctx):
     psum = json.loads(re.search(r"^VFSUMMARY (.*)$", outs["pool"], re.M).group(1))
     ctx.log("pool replay: %d schedules, %d steps, %d diverged, %d harness errors" % (
         psum["Schedules"], psum["Steps"], psum["Diverged"], psum["Errors"]))
+    unsettled = []   # observations without a verdict (not settled before the hard cap, set-up problems): the run is
+                     # INCONCLUSIVE when nothing else decided it - never a violation
     if psum["Errors"]:
-        raise vf.Inconclusive("pool replay harness errors: %s" % psum["FirstError"])
+        unsettled.append("pool replay: %d schedule(s) without a verdict (first: %s)" % (psum["Errors"], psum["FirstError"]))
+    if psum.get("Skipped"):
+        ctx.log("pool replay: %d schedules skipped after the first wall-clock verdicts" % psum["Skipped"])
     pviol, pdrift, plines, rmon = _monitor(ctx, ptr, "mon_pool")
     note(rmon, "Trace_PoolMon(pool replay)")
     ptraces = vf.read_ndjson(ptr)
@@ -556,11 +560,17 @@ def run(ctx):
                           "deadlock schedule TLC derives from Lifecycle.tla" if r["origin"] == "cex" else "simulation walk %d" % r["n"]),
                       dict(schedule=[s for s in deb_scheds if s["n"] == r["n"]][:1], result={k: r[k] for k in r if k != "dump"}, stack=r["dump"]))
     unanswered = sum(len(r.get("unanswered") or []) for r in dres)
+    for r in dres:
+        if r.get("unsure"):
+            unsettled.append("debouncer behaviour %d: %s" % (r["n"], r["unsure"]))
+    dskipped = sum(1 for r in dres if r.get("skipped"))
+    if dskipped:
+        ctx.log("debouncer: %d simulation walks skipped after the first wall-clock verdicts" % dskipped)
     unfollowed = sum(1 for r in dres if r["stuck"])
 
     # ---- 4c. named scenarios
     sres = vf.read_ndjson(scn)
-    scen_errors = []
+    scen_errors = unsettled
     for r in sres:
         if r["err"]:
             # not evidence about the property; only fatal when nothing else decided the run (see the end)
@@ -574,8 +584,10 @@ def run(ctx):
     # ---- 4c'. the map of host pools under concurrent addHost / removeHost bursts
     poltr = os.path.join(ctx.tmp, "policy_traces.ndjson")
     polsum = json.loads(re.search(r"^VFSUMMARY (.*)$", outs["policy"], re.M).group(1))
-    if polsum["Errors"] > polsum["Trials"] // 4 or polsum["Trials"] == 0:
+    if polsum["Trials"] == 0:
         raise vf.Inconclusive("policy-pool driver: %s" % polsum)
+    if polsum["Errors"]:
+        unsettled.append("policy pool: %d burst(s) without a verdict" % polsum["Errors"])
     polviol, _, pollines, rmon4 = _monitor(ctx, poltr, "mon_policy")
     note(rmon4, "Trace_PoolMon(policy pool)")
     polrecs = {(r["sched"], r["k"]): r for r in vf.read_ndjson(poltr)}
@@ -595,6 +607,9 @@ def run(ctx):
         for r in vf.read_ndjson(ip):
             info[r.get("sched")] = r
     ssum = json.loads(re.search(r"^VFSUMMARY (.*)$", outs["sess"], re.M).group(1))
+    for k_, i_ in sorted(info.items(), key=lambda kv: str(kv[0])):
+        if i_.get("unsure"):
+            unsettled.append("session run/batch %s: %s" % (k_, i_["unsure"]))
     if ssum["Errors"] > ssum["Runs"] // 4:
         raise vf.Inconclusive("%d of %d session runs could not be set up" % (ssum["Errors"], ssum["Runs"]))
     strace = vf.read_ndjson(str_)
